@@ -138,6 +138,20 @@ def extreme_configs():
     return out
 
 
+def extreme2_configs():
+    """Corral with a large learning rate over two always disagreeing Fixed learners / over [Epsilon, UCB] (plan E)."""
+    out = []
+    for bases in ([{'l': 'Fixed', 'pmf': [1, 0], 'seed': 1}, {'l': 'Fixed', 'pmf': [0, 1], 'seed': 1}],
+                  [{'l': 'Eps', 'eps': 0.1, 'seed': 1}, {'l': 'UCB', 'seed': 1}]):
+        for eta in (10, 100):
+            for mode in ('importance', 'off-policy'):
+                out.append({'l': 'Corral', 'bases': bases, 'eta': eta, 'T': 'inf', 'mode': mode, 'seed': 1})
+    return out
+
+
+E_MODES = [f'a{k}@{p}' for k in (0, 1) for p in ('1e-05', '0.0001', '1')]
+
+
 # ------------------------------------------------------------------------------------------------ canonical state
 
 _OBJ_TYPES = frozenset((RandomLearner, FixedLearner, BanditEpsilonLearner, BanditUCBLearner, MisguidedLearner, CorralLearner,
@@ -232,6 +246,7 @@ def do_step(L, d, op, rec=None, probe=False):
       predict                    predict only - a query that is not followed by a learn
       score                      score of every offered action only (not Corral)
       learn                      learn of the first offered action with logged probability .5, without a query before it (not Corral)
+      a<k>@<prob>                predict, then learn of the k-th offered action logged with probability <prob> (plan E, Corral)
     `probe`: predict and score, no learn (is the learner still able to answer?).
     Returns False when the learner cannot be used any further."""
     sname, reward, mode = op
@@ -312,6 +327,8 @@ def do_step(L, d, op, rec=None, probe=False):
         la, lp = a, p
     elif mode == 'learn':
         la, lp = A[0], 0.5
+    elif mode[0] == 'a' and '@' in mode:              # 'a<k>@<prob>': the k-th offered action was logged with that probability
+        la, lp = A[int(mode[1:mode.index('@')])], float(mode[mode.index('@') + 1:])
     else:
         la, lp = A[(idx + 1) % len(A)], LOG_PROB[mode]
     try:
@@ -423,12 +440,14 @@ class C16(Check):
             'and depth 4 with rewards {0,1} for seed 1 (Corral: depth 3 with rewards {0,1}, depth 4 over 3 action sets x rewards {0,1} x '
             '{own, prob .01} for seed 1). Both tiers: Corral over [Eps,UCB,Random] x eta {1,10} with the extra logged probability .0001 on '
             'a fixed action set (quick depth 4 on [1,2]; thorough depth 4 full alphabet and depth 6 with rewards {0,.5} on [1,2] and '
-            '[1,2,3]). A distinct state is non-trivial when the step reaching it changed the learner state apart from its rng '
+            '[1,2,3]); Corral over two always disagreeing Fixed learners / [Eps,UCB] x eta {10,100} x both modes on [1,2] with the logged action '
+            'chosen independently of the prediction (first / second) x logged probability {1e-5,1e-4,1} x rewards {0,1}, depth 4 (thorough 5); '
+            'query plans with predict-only / score-only / learn-without-query steps over changing action sets (depth 3, Corral 2; thorough 3-4). A distinct state is non-trivial when the step reaching it changed the learner state apart from its rng '
             'positions (the policy or its statistics moved)')
     ASSUMPTIONS = [
         'contexts are tied to the action set (None, tuple, str, list, dict): the learners are context-free',
         'a FixedLearner (alone or as a Corral base) is only offered action sets of the length of its pmf (anything else is a caller error)',
-        'the logged action of the non-own learn modes is the offered action after the predicted one (cyclic); its logged probability is .5 or (Corral only, where it matters) .01, and .0001 in the 3-base Corral cases',
+        'the logged action of the non-own learn modes is the offered action after the predicted one (cyclic); its logged probability is .5 or (Corral only, where it matters) .01, and .0001 in the 3-base Corral cases; in the extreme plan (eta 10/100) the logged action is the first or second offered action with probability 1e-5, 1e-4 or 1',
         'rewards are 0, .5, 1; Misguided shifts them to [0,1] (flip) or to {-1,0,1} for BanditEpsilon only; Corral is never fed rewards outside [0,1]',
         'Corral.score is not constrained (each call re-samples its base learners; the statement constrains score for the deterministic-policy learners only)',
         'for Corral "the probability with which its policy selects the action" is taken as its own pmf value given the base proposals (sum of p_bar over the proposing base learners), not the marginal over base draws',
@@ -442,7 +461,7 @@ class C16(Check):
                   'rewards {0,1}; Corral 2 / 3-4) steps over changing action sets is executed on the real learner for every listed configuration; '
                   'predict/score/learn outputs and Corral weights are checked on every transition, so the shortest violating history below '
                   'the bound is found with certainty.')
-    LEVEL_NOTE = 'small-scope hypothesis: depth <=6, rewards {0,.5,1}, 5 action sets, logged probabilities {.5,.01,.0001}, eta <= 10, <= 3 base learners, seeds {1,2}; float results compared with 1e-9 (Corral weights 1e-4)'
+    LEVEL_NOTE = 'small-scope hypothesis: depth <=6, rewards {0,.5,1}, 5 action sets, logged probabilities {.5,.01,1e-4,1e-5,1}, eta <= 100, <= 3 base learners, seeds {1,2}; float results compared with 1e-9 (Corral weights 1e-4)'
     MIN_NONTRIVIAL = {'quick': 50000, 'thorough': 500000}
     CASE_TIMEOUT = 1500
     TIMEOUT_IS_VIOLATION = False       # own per-step CPU horizon (StepTimeout) classifies non-termination
@@ -455,6 +474,8 @@ class C16(Check):
         """Plans (each a list of cases, cheap learners first inside a plan):
         quick     F  every configuration (Corral: seed 1) x each action set alone, full step alphabet, depth 4
                   X  Corral over 3 base learners (eta {1,10}), [1,2], rewards {0,.5} x {own, logged .01, logged .0001}, depth 4
+                  E  Corral over [Fixed([1,0]),Fixed([0,1])] / [Eps,UCB], eta {10,100}, both modes, [1,2]: rewards {0,1} x logged
+                     action {first, second} x logged probability {1e-5, 1e-4, 1}, depth 4 (thorough: 5)
                   Q  seed 1 x all its action sets, rewards {0,1} x {own, learn without query} + predict only + score only: depth 3;
                      Corral {own} + predict only: depth 2
                   C  seed 1 x all its action sets, rewards {0,1}: others depth 3 (20 steps), Corral depth 2 (30 steps)
@@ -495,6 +516,9 @@ class C16(Check):
                 for s in ('i2', 'i3'):
                     yield case(d, [s], REWARDS, ['own', 'log', 'tiny', 'micro'], 4)
                     yield case(d, [s], [0, 0.5], ['own', 'tiny', 'micro'], 6)
+        # -- E: extreme logged propensities with a large learning rate; the logged action is chosen independently of the prediction
+        for d in extreme2_configs():
+            yield case(d, ['i2'], R01, E_MODES, 4 if quick else 5)
         # -- Q: queries that are not followed by a learn (predict only, score only), learn without a query before it
         QM = ['own', 'learn', 'predict', 'score']
         for d in cfgs:
